@@ -12,6 +12,7 @@ and no solver is consulted.
 from __future__ import annotations
 
 import ast
+import os
 import string
 from dataclasses import dataclass, field
 from typing import Any, Callable, Dict, List, Optional, Tuple
@@ -200,6 +201,9 @@ class Interp:
         self.paths = 0
         self.steps = 0
         self.max_steps = 300000
+        import time as _time
+        self._t0 = _time.monotonic()
+        self.max_seconds = float(os.environ.get("SA_MAX_SECONDS", "90"))   # wall-clock budget of one interpreter (resource limit: exit 2)
         from . import lib
 
         self.lib = lib
@@ -217,6 +221,7 @@ class Interp:
         ctx = Ctx(fi, fi.module, 0)
         outs = self._invoke(fi, args, st, ctx)
         self._note_opaque(fi, outs)
+        self._close_guards(outs)
         for o in outs:
             # a remembered result handed out of the analysed entry point (directly or inside the returned object)
             vals = [o.value] if o.kind == "return" else []
@@ -227,6 +232,19 @@ class Interp:
                 if isinstance(v_, tuple) and v_[:1] == ("obj",) and v_[1] in o.state.heap and o.state.heap[v_[1]].name.startswith("memo:"):
                     T.HAZARDS[("CACHED", o.state.heap[v_[1]].name[5:])] = f"the remembered result of the memoised {o.state.heap[v_[1]].name[5:]} is returned by {fi.qualname} to callers outside the analysis"
         return outs
+
+    def _close_guards(self, outs: List[Outcome]) -> None:
+        """Append to each outcome's guard list the literals that follow from it by flattening conjunctions and unit
+        resolution (frames.flat_pc): rules that look for a literal among the guards then find `q` on a path guarded
+        by `(not p or q)` and `p`.  Only consequences are added (at the end: positions recorded in events stay valid)."""
+        from .frames import flat_pc
+        for o in outs:
+            if any(isinstance(g, tuple) and g and g[0] in ("and", "or") for g in o.state.pc):
+                have = list(o.state.pc)
+                for g in flat_pc(have):
+                    if g not in have and not (isinstance(g, tuple) and g and g[0] == "or"):
+                        o.state.pc.append(g)
+                        have.append(g)
 
     def _note_opaque(self, fi: Any, outs: List[Outcome]) -> None:
         """Record opaque values that survive into the outcomes (see terms.OPAQUE_SEEN)."""
@@ -258,6 +276,9 @@ class Interp:
         self.functions_visited[fi.key] = self.functions_visited.get(fi.key, 0) + 1
         cdecos = [d for d in fi.decorators if d.split("(")[0].split(".")[-1] in ("cache", "lru_cache", "cached_property", "memoize", "memoized")]
         cached_entry = None
+        if cdecos and is_generator(fi):
+            T.HAZARDS[("ONESHOT", fi.key)] = (f"{fi.qualname} is a generator function decorated with {cdecos}: the cache remembers the generator OBJECT, so every call after the first "
+                                               f"with an equal key gets the same, already exhausted generator and sees no items")
         if cdecos and self._const_like_args(bound, st):
             cached_entry = (len(st.events), cdecos)     # judged after the body ran, see _memo_is_constant_table
         elif cdecos:
@@ -477,6 +498,10 @@ class Interp:
         self.steps += 1
         if self.steps > self.max_steps:
             raise AnalysisError(f"analysis budget exceeded ({self.max_steps} abstract statements) at {ctx.loc(node)}")
+        if self.steps % 64 == 0:
+            import time as _time
+            if _time.monotonic() - self._t0 > self.max_seconds:
+                raise AnalysisError(f"analysis budget exceeded ({int(self.max_seconds)} s in one interpreter: the guards grew too large to handle) at {ctx.loc(node)}")
         m = getattr(self, "st_" + type(node).__name__, None)
         if m is None:
             raise AnalysisError(f"unsupported statement {type(node).__name__} at {ctx.loc(node)}")
@@ -675,7 +700,14 @@ class Interp:
             return self.exec_block(des, st, ctx)
         out = []
         for s, v, sig in self.eval_forking(node.value, st, ctx):
-            out.append((s, sig if sig is not None else ("return", v)))
+            if sig is not None:
+                out.append((s, sig))
+            elif ctx.depth == 1 and isinstance(v, tuple) and (v[:1] == ("ite",) or (v[:1] == ("seq",) and len(v) == 3 and len(v[2]) == 1 and isinstance(v[2][0], tuple) and v[2][0][:1] == ("alt",))):
+                # the analysed function returns `f(a if c else b)`: one returning path per choice, as for `if c: return f(a)`
+                for s2, v2 in self.split_value(v, s, ctx, any_cond=True):
+                    out.append((s2, ("return", v2)))
+            else:
+                out.append((s, ("return", v)))
         return out
 
     def st_Raise(self, node: ast.Raise, st: State, ctx: Ctx) -> List[Tuple[State, Any]]:
@@ -778,15 +810,22 @@ class Interp:
             return bool(r and r[0] == "class" and r[1].enum is not None)
         return False
 
-    def split_value(self, v: Term, s: State, ctx: Ctx) -> List[Tuple[State, Term]]:
+    def split_value(self, v: Term, s: State, ctx: Ctx, any_cond: bool = False) -> List[Tuple[State, Term]]:
         """A value that is a two-way choice on a condition the path has not decided (`a or b`, a conditional expression
         evaluated inside a comprehension / argument list, ...) - also as an item of a tuple - forks the path on that
         condition, as the same choice written as a statement would.  Only in the analysed entry function (depth <= 1)."""
         if ctx.depth > 1:
             return [(s, v)]
 
+        def as_ite(x: Term) -> Term:
+            # a text that is one conditional alternative is the conditional of the two texts
+            if isinstance(x, tuple) and len(x) == 3 and x[0] == "seq" and len(x[2]) == 1 and isinstance(x[2][0], tuple) and len(x[2][0]) == 4 and x[2][0][0] == "alt":
+                return ("ite", x[2][0][1], x[2][0][2], x[2][0][3])
+            return x
+
         def resolve(x: Term, s1: State) -> Term:
             for _ in range(8):
+                x = as_ite(x)
                 if isinstance(x, tuple) and len(x) == 4 and x[0] == "ite":
                     d = decided_by(s1.pc, x[1]) if not is_c(x[1]) else bool(x[1][1])
                     if d is None:
@@ -811,7 +850,8 @@ class Interp:
             return False
 
         def first_cond(x: Term) -> Optional[Term]:
-            if isinstance(x, tuple) and len(x) == 4 and x[0] == "ite" and _is_cond(x[1]) and on_argument(x[1]):
+            x = as_ite(x)
+            if isinstance(x, tuple) and len(x) == 4 and x[0] == "ite" and _is_cond(x[1]) and (any_cond or on_argument(x[1])):
                 return x[1]
             if isinstance(x, tuple) and x[:1] == ("tuple",):
                 for y in x[1]:
@@ -1028,7 +1068,7 @@ class Interp:
             if isinstance(b, ast.Break) or (isinstance(b, ast.Name) and b.id == rname):
                 return None
         buf = ho.fields["buf"]
-        rest = buf if pos[1] == 0 else self.lib.slice_value(self, buf, pos, c(None), c(None), st, ctx, node)
+        rest = buf if pos[1] == 0 else self.lib.slice_value(self, buf, pos, None, st, ctx, node)
         seq = T.to_seq(rest)
         if seq is None or is_top(rest):
             return None
@@ -1847,6 +1887,7 @@ class Interp:
         outs = self._construct(ci, args, kwargs, st, ctx, node)
         if ctx.fi is None and ctx.depth == 0:
             self._note_opaque(f"{ci.name}.__init__", outs)   # used as an analysis entry point by a checker
+            self._close_guards(outs)
         return outs
 
     def _construct(self, ci: ClassInfo, args: List[Term], kwargs: Dict[str, Term], st: State, ctx: Ctx, node: ast.AST) -> List[Outcome]:
@@ -2385,10 +2426,10 @@ class Interp:
                 n_ = args[0][1] if len(args) == 1 and is_c(args[0]) and isinstance(args[0][1], int) and not isinstance(args[0][1], bool) and args[0][1] >= 0 else None
                 if not args or (len(args) == 1 and is_c(args[0]) and (args[0][1] is None or (isinstance(args[0][1], int) and args[0][1] < 0))):
                     ho.fields["pos"] = self.lib.length(self, buf, st, ctx, node)
-                    return self.lib.slice_value(self, buf, pos, c(None), c(None), st, ctx, node)
+                    return self.lib.slice_value(self, buf, pos, None, st, ctx, node)
                 if n_ is not None:
                     ho.fields["pos"] = c(pos[1] + n_)    # (past the end when the buffer is shorter: later reads are empty either way)
-                    return self.lib.slice_value(self, buf, pos, c(pos[1] + n_), c(None), st, ctx, node)
+                    return self.lib.slice_value(self, buf, pos, c(pos[1] + n_), st, ctx, node)
             raise AnalysisError(f"in-memory stream method {fv[2]} in a form that is not modelled at {ctx.loc(node)}")
         if t == "lookup" and fv[1] and all(isinstance(f, tuple) and f and f[0] in ("lambda", "func", "bound", "partialobj") for _, f in fv[1]):
             # call of a callable chosen from a table by a symbolic key: the table of the results; what an entry may
